@@ -75,6 +75,14 @@ fn slot_bytes(s: &Value, dict: &Dict) -> [u8; 128] {
         for (i, u) in units.iter().enumerate().take(32) {
             put_u16(&mut e, 2 * i, *u);
         }
+        // one unit of the name replaced (corruptions of the name itself): [position, unit], position -1 = last unit
+        if let Some(p) = s["npatch"].as_array() {
+            if n > 0 && p.len() == 2 {
+                let pos = p[0].as_i64().unwrap_or(0);
+                let at = if pos < 0 { n - 1 } else { (pos as usize).min(n - 1) };
+                put_u16(&mut e, 2 * at, p[1].as_u64().unwrap_or(0) as u16);
+            }
+        }
         let nlen = s["nlen"].as_i64().unwrap_or(2 * (n as i64 + 1));
         put_u16(&mut e, 64, nlen as u16);
         if s["unterminated"].as_bool() == Some(true) && n < 32 {
